@@ -85,6 +85,31 @@ SPECS["C12"] = {
     "assumptions": ["overlap theorems require a non-empty voter set before the change (C12_overlap_bootstrap_refuted shows why)"],
 }
 
+SPECS["C19"] = {
+    "id": "C19", "kind": "component", "component": "memstorage",
+    "run_module": "Run.RunMemStorage", "runfun": "run_memstorage",
+    "gens": [
+        {"prefix": "memstorage-exh", "args": {"quick": ["--mode", "exhaustive", "--depth", "3"],
+                                               "thorough": ["--mode", "exhaustive", "--depth", "4"]}},
+        {"prefix": "memstorage-rnd", "args": {"quick": ["--mode", "random", "--count", "3000"],
+                                               "thorough": ["--mode", "random", "--count", "30000"]}},
+    ],
+    "incoq": {"quick": 60, "thorough": 300},
+    "nontrivial_tokens": 5,
+    "rule": "cases = every sequence of MemStorage mutations (append of 1-2 entries at every position incl. overwriting and illegal gap/compacted positions, compact(idx) for all idx to last+2, apply_snapshot at several (index, term) incl. out-of-date, commit_to, hard-state/conf-state updates, trigger flags) up to the tier's depth over indexes <= 6 / terms <= 3, each followed by a battery of queries (term(i) around the window, entries(lo,hi,max) for all lo<=hi incl. empty ranges and one beyond, max in {0, boundary sizes, NO_LIMIT}, snapshot(request_index)); plus seeded random sequences of length 60 with payload lengths crossing varint boundaries; results, errors, panic sites and the observable state compared; non-trivial = at least one operation; distinct = distinct case lines",
+    "explanation": "Theorems for all histories: Props/C19.v (40 statements: representation invariant, every mutator refines the sequence model under its documented precondition and panics/errs as documented outside it, first/last/term/entries characterised incl. non-empty maximal prefix under the size limit, snapshot at the commit index, history theorem). Tie: lockstep differential of M/MemStorage.v against raft::storage::MemStorage on every run + vm_compute sample. The empty-range read on an empty store was a genuine defect, fixed in /repo (see known_findings.txt).",
+    "trusted_base": TB_COMMON + ["private snapshot_metadata observed by probing term(); conf_state through initial_state()",
+                                 "modelled not verified: src/storage.rs MemStorageCore/MemStorage, util::limit_size, Entry::compute_size (exact protobuf size function re-derived by hand from the generated code)",
+                                 "the RwLock of MemStorage (thread interleavings) is outside the model"],
+    "manifest": {
+        "technique": "machine-checked proof in Coq (refinement of MemStorage to a snapshot-point + contiguous-entries sequence model, induction over histories) + model/implementation correspondence by differential execution",
+        "text": "Props/C19.v (40 pinned theorems, all operation histories): under the documented preconditions every MemStorage mutator preserves the representation invariant and acts as the obvious operation on a snapshot point followed by contiguous entries; first/last index, term and entries equal the model's answers, with Compacted/Unavailable exactly outside the held range, size-limited reads returning a non-empty maximal prefix, the empty in-range read returning Ok([]) (after the fix of the genuine defect found here), and a snapshot taken at the stored commit index carrying that index's term, the stored configuration and an index >= the requested one; outside the preconditions the documented panics. Tied to src/storage.rs on every run by exhaustive small-scope + random differential.",
+        "design_ref": "DESIGN.md section 7, C19",
+        "note": "Trusted: Coq kernel; hand-written model validated by differential execution; extraction + OCaml driver cross-checked by vm_compute; Rust harness; exact protobuf entry size transcribed by hand. No axioms.",
+    },
+    "assumptions": ["mutations within their documented preconditions for the refinement statements; byte lengths < 2^32"],
+}
+
 TB_NODE = TB_COMMON + [
     "hooks in /repo under cfg(tikv_raft_rs_verif): read-only views of private RaftCore/RawNode fields; election-timeout recorder/override (the drawn value is an oracle input of the model)",
     "cluster simulator /verif/harness/src/sim.rs (event alphabet, contract-abiding application, SimStorage = MemStorage with the application's own snapshot); dump/encode code harness/src/node.rs; outbound messages compared after a stable sort by destination (hash iteration order not modelled)",
